@@ -2,6 +2,7 @@ package scen
 
 import (
 	"fmt"
+	"strings"
 	"time"
 
 	sdk "github.com/cosmos/cosmos-sdk/types"
@@ -57,6 +58,8 @@ func (C15) Events(env world.Env, m mc.Model) []string {
 	for _, x := range c15Who {
 		evs = append(evs, "Shutdown:"+x)
 	}
+	// account B also signs with the (valid) all-capitals spelling of its address
+	evs = append(evs, "InitUpper:B", "ShutdownUpper:B")
 	evs = append(evs, "Price:1", "Price:2", "Price:half")
 	if m.(c15Model).Blocks < 1 {
 		evs = append(evs, "NextBlock")
@@ -103,13 +106,21 @@ func (C15) Apply(env world.Env, mm mc.Model, ev string) mc.Step {
 		})
 		m.Price = np
 		st.Outcome = "ok"
-	case "Init":
+	case "Init", "InitUpper":
 		who := w.A(p[1])
-		msg := storagetypes.NewMsgInitProvider(who.Bech, "https://"+p[1]+".example.com", 1_000_000, "kb")
+		creator := who.Bech
+		if p[0] == "InitUpper" {
+			creator = strings.ToUpper(creator)
+		}
+		msg := storagetypes.NewMsgInitProvider(creator, "https://"+p[1]+".example.com", 1_000_000, "kb")
 		res := env.Deliver(msg)
 		after := w.Balances(env.Ctx())
 		d := world.BalDiff(before, after)
-		_, registered := m.Rec[p[1]]
+		id := p[1]
+		if p[0] == "InitUpper" {
+			id += "^" // records are keyed by the spelling used: a separate registration of the same account
+		}
+		_, registered := m.Rec[id]
 		canPay := before[who.Bech].AmountOf("ujkl").GTE(sdk.NewInt(m.Price))
 		expectOK := !registered && canPay
 		st.Exercised = append(st.Exercised, "init")
@@ -119,26 +130,34 @@ func (C15) Apply(env world.Env, mm mc.Model, ev string) mc.Step {
 		}
 		if res.OK() {
 			st.Outcome = "ok"
-			m.Rec[p[1]] = m.Price
+			m.Rec[id] = m.Price
 			if !deltaOf(d, who.Bech, "ujkl").Equal(sdk.NewInt(-m.Price)) || !deltaOf(d, escrow, "ujkl").Equal(sdk.NewInt(m.Price)) || len(d) != 2 {
 				vs = append(vs, viol("init-locks-current-price", "wrong-transfer", "price %d, balance changes %s", m.Price, diffString(w, d, map[string]string{escrow: "escrow"})))
 			}
-			c, found := k.GetCollateral(env.Ctx(), who.Bech)
+			c, found := k.GetCollateral(env.Ctx(), creator)
 			if !found || c.Amount != m.Price {
 				vs = append(vs, viol("init-records-price", "record", "collateral record found=%v amount=%d, price %d", found, c.Amount, m.Price))
 			}
-			if _, ok := k.GetProviders(env.Ctx(), who.Bech); !ok {
+			if _, ok := k.GetProviders(env.Ctx(), creator); !ok {
 				vs = append(vs, viol("init-registers", "no-provider", "no provider record after successful init"))
 			}
 		} else if len(d) != 0 {
 			vs = append(vs, viol("failed-init-moves-nothing", "moved", "balance changes %s", diffString(w, d, nil)))
 		}
-	case "Shutdown":
+	case "Shutdown", "ShutdownUpper":
 		who := w.A(p[1])
-		res := env.Deliver(storagetypes.NewMsgShutdownProvider(who.Bech))
+		creator := who.Bech
+		if p[0] == "ShutdownUpper" {
+			creator = strings.ToUpper(creator)
+		}
+		res := env.Deliver(storagetypes.NewMsgShutdownProvider(creator))
 		after := w.Balances(env.Ctx())
 		d := world.BalDiff(before, after)
-		amt, registered := m.Rec[p[1]]
+		id := p[1]
+		if p[0] == "ShutdownUpper" {
+			id += "^"
+		}
+		amt, registered := m.Rec[id]
 		st.Exercised = append(st.Exercised, "shutdown")
 		if registered {
 			st.Exercised = append(st.Exercised, "shutdown-registered")
@@ -148,14 +167,14 @@ func (C15) Apply(env world.Env, mm mc.Model, ev string) mc.Step {
 		}
 		if res.OK() {
 			st.Outcome = "ok"
-			delete(m.Rec, p[1])
+			delete(m.Rec, id)
 			if !deltaOf(d, who.Bech, "ujkl").Equal(sdk.NewInt(amt)) || !deltaOf(d, escrow, "ujkl").Equal(sdk.NewInt(-amt)) || len(d) != 2 {
 				vs = append(vs, viol("shutdown-returns-recorded", "wrong-transfer", "recorded %d (current price %d), balance changes %s", amt, m.Price, diffString(w, d, map[string]string{escrow: "escrow"})))
 			}
-			if _, f := k.GetCollateral(env.Ctx(), who.Bech); f {
+			if _, f := k.GetCollateral(env.Ctx(), creator); f {
 				vs = append(vs, viol("shutdown-removes", "collateral-left", "collateral record still present"))
 			}
-			if _, f := k.GetProviders(env.Ctx(), who.Bech); f {
+			if _, f := k.GetProviders(env.Ctx(), creator); f {
 				vs = append(vs, viol("shutdown-removes", "provider-left", "provider record still present"))
 			}
 		} else if len(d) != 0 {
